@@ -107,6 +107,9 @@ func (e *Env) applyContract(st *State, ct *Contract, args []Val, rt types.Type, 
 	var preW map[string]string
 	var ctxW int
 	for _, a := range args {
+		if a.K == kIface && a.Inner != nil && a.Inner.K == kCtx {
+			a = *a.Inner
+		}
 		if a.K == kCtx {
 			ctxW = a.World
 			preW = e.worldComps(st, a.World)
